@@ -45,6 +45,50 @@ fn c02_standard_file_two_blocks() {
     core::mem::forget((out, dat, info));
 }
 
+/// texture entry: the extracted file is the texture header followed by every mip level's blocks
+/// in order; block positions follow the flat i16 size table (mip 0: blocks of 128 and 256 bytes,
+/// mip 1: two blocks of 128 bytes)
+#[kani::proof]
+#[kani::unwind(24)]
+fn c02_texture_file_two_mips() {
+    const HS: usize = 128;      // entry header size
+    const TABLE: usize = 64;    // where FileInfo::read leaves the cursor: the i16 block size table
+    const TH: usize = 16;       // texture header bytes in front of the first mip
+    let mut img = vec![0u8; HS + TH + 128 + 256 + 128 + 128 + 8];
+    put(&mut img, TABLE, 128i16.to_le_bytes());
+    put(&mut img, TABLE + 2, 256i16.to_le_bytes());
+    put(&mut img, TABLE + 4, 128i16.to_le_bytes());
+    put(&mut img, TABLE + 6, 128i16.to_le_bytes());
+    let th: [u8; TH] = kani::any();
+    put(&mut img, HS, th);
+    let a0: [u8; 3] = kani::any();
+    let a1: [u8; 2] = kani::any();
+    let b0: [u8; 4] = kani::any();
+    let b1: [u8; 1] = kani::any();
+    put_raw_block(&mut img, HS + TH, &a0);
+    put_raw_block(&mut img, HS + TH + 128, &a1);
+    put_raw_block(&mut img, HS + TH + 384, &b0);
+    put_raw_block(&mut img, HS + TH + 512, &b1);
+    let mut dat = SqPackData { file: MemFile::new(img) };
+    dat.file.pos.set(TABLE as u64);
+    let info = FileInfo { size: HS as u32, file_type: FileType::Texture, file_size: 26, standard_info: None, model_info: None,
+        texture_info: Some(TextureBlock { num_blocks: 2, lods: vec![
+            TextureLodBlock { compressed_offset: TH as u32, compressed_size: 384, decompressed_size: 5, block_offset: 0, block_count: 2 },
+            TextureLodBlock { compressed_offset: (TH + 384) as u32, compressed_size: 256, decompressed_size: 5, block_offset: 2, block_count: 2 },
+        ] }) };
+    let out = dat.read_texture_file(0, &info).unwrap();
+    assert_eq!(out.len(), TH + 3 + 2 + 4 + 1);
+    let k: usize = kani::any();
+    kani::assume(k < TH);
+    assert_eq!(out[k], th[k]);
+    assert!(out[TH] == a0[0] && out[TH + 1] == a0[1] && out[TH + 2] == a0[2]);
+    assert!(out[TH + 3] == a1[0] && out[TH + 4] == a1[1]);
+    assert!(out[TH + 5] == b0[0] && out[TH + 6] == b0[1] && out[TH + 7] == b0[2] && out[TH + 8] == b0[3]);
+    assert!(out[TH + 9] == b1[0]);
+    kani::cover!(true);
+    core::mem::forget((out, dat, info));
+}
+
 fn sizes32(stack: u32, runtime: u32, v0: u32, i0: u32) -> ModelMemorySizes<u32> {
     ModelMemorySizes { stack_size: stack, runtime_size: runtime, vertex_buffer_size: [v0, 0, 0], edge_geometry_vertex_buffer_size: [0; 3], index_buffer_size: [i0, 0, 0] }
 }
